@@ -55,6 +55,13 @@ MANIFEST = dict(
           "(list / tuple, one entry per slot, each entry in its own symbolic-scale unit; item assignment under 9 index kinds, "
           "np.put / putmask / place) with every fault injected at EVERY position of the sequence, so that a refusal after the "
           "earlier slots were written is a counter-model of 'in-place call raised: numbers of the target unchanged'. "
+          "BARE ndarray operands next to quantities in SCALED pure-number units (percent-like table units, a user unit of "
+          "symbolic scale, cancelling pairs km/m, k<u>/<u>, <u>/<v> of two symbolic scales) are tracked as INPUTS of every binary "
+          "key whose unit rule rescales the second operand (add, subtract, 6 comparisons, remainder, floor_divide, fmod, "
+          "maximum, minimum, fmax, fmin, hypot, arctan2, copysign, nextafter, heaviside, logaddexp) x {operator, reflected "
+          "operator, ufunc call with the bare array second, ufunc call with it first} x {whole array, contiguous window, strided "
+          "window of a parent that is tracked too} on symbolic object payloads, and - ground part, because np.asarray(x, "
+          "dtype=float) is the identity only there - on real float64 / float32 buffers with table units. "
           "Counterexamples are replayed on plain unyt."),
     design="DESIGN.md section 4 C18",
     technique="symbolic execution of the real Python code over z3 real terms; frame obligations (term equality under the path condition) decided by z3; counterexample replay")
@@ -98,13 +105,22 @@ EXPLANATION = (
     "Sequences: __setitem__ / np.put / np.putmask / np.place with a list or tuple of quantities - each entry element 1 of its own "
     "4-element parent, in a unit with its own symbolic scale (or offset) - are run with the fault (other dimension, bare number, "
     "dimensionless entry, prefixed other dimension) at position 0, 1 and 2; raised -> target, parent, every entry and every entry's "
-    "parent hold their snapshot terms; returned -> every slot within the 1e-6 band of entry.in_units(array unit) computed beforehand."
+    "parent hold their snapshot terms; returned -> every slot within the 1e-6 band of entry.in_units(array unit) computed beforehand. "
+    "barescale/<key>/<form>/<unit>/<payload>/<operand>: a quantity a in a scaled pure-number unit and a bare ndarray b (read as "
+    "dimensionless, so one of the two is rescaled by the unit's base value inside __array_ufunc__); form op = a <op> b, rop = b <op> a, "
+    "uf = np.key(a, b), ruf = np.key(b, a); payload sym = object arrays of z3 reals (unit scale symbolic for xd, xa/xb), f64 / f32 = "
+    "real float buffers with exactly representable numbers and table units (ground); operand whole = b owns its memory, window / "
+    "strided = b is a view of a tracked parent. Returned or raised: numbers, dtype, shape, class of a, a^, b, b^ and the unit "
+    "object of a as in the snapshot taken before the call; registry rows unchanged."
 )
 BOUNDS = {
     "quick": "conversions x 5 entry points x {valid plain/prefixed/affine/compound/table/EM/identity, dimension mismatch, unknown unit, "
              "unparsable unit}; base conversions x 13 entry points x {plain, affine, compound, table, EM x2, irreducible x2, unknown "
              "system}; 22 equivalence routes x 4 entry points incl. invalid equivalence (source/target/name), bad kwarg, unknown "
              "unit, offset unit; 12 binary operators + 6 augmented assignments + ** (6 forms x 13 exponent kinds) + 3 unary x "
+             "[bare ndarray next to a scaled pure number: 21 binary keys x {op, rop, uf, ruf} x {sym, f64, f32} with the unit kind (6 for "
+             "sym, 3 table units for real buffers) and the operand kind {whole, window, strided} rotating so that every pair of the two "
+             "occurs per payload kind; keys without an object loop only on real buffers; floor_divide without the ratio of two symbolic scales] "
              "operand variants {same unit, other scale, table pair, other dimension, quantity, bare number/array on either side, "
              "same object twice, offset guards, K/degC guard, logarithmic unit, non-dimensionless exponent}; 45 ufunc configurations x "
              "out in {none, fresh, other unit, bare ndarray, wrong shape, wrong shape in a commensurable other unit, wrong shape in another "
@@ -175,9 +191,12 @@ BOUNDS = {
                 "2x2 every-second-column windows; argument spelling: every spelling x every unit pair x scalar / array / one "
                 "non-contiguous layout, copy spellings x 7 sources (1-d, C / Fortran 2x2, strided, every second column, reversed, 0-d) + "
                 "float64 and float32 buffers; sequences: the full product unit pattern x container x index kind, every fault x position "
-                "x index kind x container, np.put / putmask / place x 4 faults x 3 positions",
+                "x index kind x container, np.put / putmask / place x 4 faults x 3 positions; bare ndarray next to a scaled pure number: "
+                "the full product key x form x payload kind x unit kind x operand kind",
 }
-OUTSIDE = ("IEEE rounding/overflow/nan (A1); complex payloads; sequences longer than three entries, nested sequences and sequences "
+OUTSIDE = ("IEEE rounding/overflow/nan (A1); complex payloads; bare operands next to scaled pure numbers other than 1-d arrays of two "
+           "elements (0-d, 2-d, lists - NumPy copies those -, float16 / integer bare buffers) and real float buffers next to a unit of "
+           "symbolic scale (the rescaled copy becomes an object array: another route than the one real buffers take); sequences longer than three entries, nested sequences and sequences "
            "handed to np.copyto / fill (unyt stores their raw numbers: C01's subject); astype(copy=False) and the as*array functions "
            "(documented to return their input when they can); order= spellings of routes other than the copy routes; histories longer than three calls, histories that cross the "
            "equivalence / plain-catalogue operand sets, and state that survives a path only in a worker process (every path starts "
@@ -944,6 +963,83 @@ def unop_case(opname, src, shape):
         a = E.operand("a", src, shape)
         E.copying(lambda: UNOPS[opname](a))
     return Case(_cid("op", opname, src, "valid", "shape" + _shape_tag(shape)), h)
+
+
+# =========================================================================================== bare operands next to scaled pure numbers
+# A bare ndarray next to a quantity whose unit is a SCALED pure number (percent, mg/kg, km/m, a user unit of symbolic scale, a
+# ratio of two user units) is read as dimensionless and has to be rescaled to the unit of the first operand: the one route on
+# which a binary call multiplies the numbers of an operand that unyt does not own. The bare operand is an INPUT: snapshot before,
+# compared after (and its parent, when it is a window). key -> (operator or None, needs a non-zero divisor, smooth)
+BARESCALE_KEYS = {
+    "add": (operator.add, False, True), "subtract": (operator.sub, False, True),
+    "less": (operator.lt, False, False), "less_equal": (operator.le, False, False), "greater": (operator.gt, False, False),
+    "greater_equal": (operator.ge, False, False), "equal": (operator.eq, False, False), "not_equal": (operator.ne, False, False),
+    "remainder": (operator.mod, True, False), "floor_divide": (operator.floordiv, True, False), "fmod": (None, True, False),
+    "maximum": (None, False, False), "minimum": (None, False, False), "fmax": (None, False, False), "fmin": (None, False, False),
+    "hypot": (None, False, False), "arctan2": (None, True, False), "copysign": (None, False, False),
+    "nextafter": (None, False, False), "heaviside": (None, False, False), "logaddexp": (None, False, False),
+}
+BARESCALE_FORMS = ("op", "rop", "uf", "ruf")  # q op bare | bare op q | np.key(q, bare) | np.key(bare, q)
+# real float buffers (ground part: concrete exactly representable numbers AND concrete table units - a symbolic scale would turn
+# the rescaled copy into an object array, which is not the route np.asarray(x, dtype=float) is the identity on)
+BARESCALE_UNITS = {"sym": ("xd", "xa/xb", "percent", "km/m", "kxa/xa", "mg/kg"), "f64": ("percent", "km/m", "mg/kg"),
+                   "f32": ("percent", "km/m", "mg/kg")}
+BARESCALE_NO_OBJECT_LOOP = ("copysign", "nextafter", "heaviside", "logaddexp")  # real buffers only
+BARESCALE_OPERANDS = ("whole", "window", "strided")
+
+
+def barescale_case(key, form, unit, payload_kind, operand):
+    oper, nonzero, smooth = BARESCALE_KEYS[key]
+
+    def h(ctx):
+        E = Env(ctx)
+        E.observe_values = smooth and payload_kind == "sym"
+        kw = dict(nonzero=True) if nonzero else {}
+        lay = "strided" if operand == "strided" else "c"
+        if payload_kind == "sym":
+            a = E.view("a", unit, (2,), **kw)
+            if operand == "whole":
+                b = E.track("b", ctx.reals("b", (2,), **kw))
+            else:
+                b = E.view("b", None, (2,), layout=lay, **kw)
+        else:
+            dt = np.float64 if payload_kind == "f64" else np.float32
+            a = E.concrete("a", [1.5, 3.0], unit, dtype=np.float64)
+            if operand == "whole":
+                b = E.track("b", np.array([0.5, -2.25], dtype=dt))
+            else:
+                b = E.concrete("b", [0.5, -2.25], None, dtype=dt, layout=lay)
+        assert type(b) is np.ndarray and "b" in E.tracked and (operand == "whole" or "b^" in E.tracked)
+        uf = getattr(np, key)
+        fn = {"op": lambda: oper(a, b), "rop": lambda: oper(b, a), "uf": lambda: uf(a, b), "ruf": lambda: uf(b, a)}[form]
+        r = E.copying(fn, tag="bare operand next to a scaled pure number: copying")
+        if payload_kind != "sym" and unit in ("percent", "km/m", "mg/kg") and key in ("add", "subtract", "less", "equal", "maximum", "minimum"):
+            ctx.require("catalogue sanity: a bare array next to a table pure-number unit is accepted", r[0] == "ok", raised=str(r[1])[:160])
+    return Case(_cid("barescale", key, form, unit.replace("/", "_per_"), payload_kind, operand), h)
+
+
+def _barescale_cases(quick):
+    out, rot = [], {}
+    for key, (oper, _, _) in BARESCALE_KEYS.items():
+        for form in BARESCALE_FORMS:
+            if oper is None and form in ("op", "rop"):
+                continue
+            for pk in ("sym", "f64", "f32"):
+                if pk == "sym" and key in BARESCALE_NO_OBJECT_LOOP:
+                    continue
+                units = BARESCALE_UNITS[pk]
+                if key == "floor_divide":  # the ratio of two symbolic scales: sympy's is_integer on a symbolic real (engine limit)
+                    units = tuple(u for u in units if u != "xa/xb")
+                if quick:  # every key x form x payload kind; unit kind and operand kind rotate (all pairs of the two per payload kind)
+                    n = rot.get(pk, 0)
+                    rot[pk] = n + 1
+                    out.append(barescale_case(key, form, units[n % len(units)], pk, BARESCALE_OPERANDS[(n // len(units) + n) % 3]))
+                    continue
+                for unit in units:
+                    for operand in BARESCALE_OPERANDS:
+                        out.append(barescale_case(key, form, unit, pk, operand))
+    return out
+
 
 
 # =========================================================================================== ufuncs
@@ -2465,6 +2561,8 @@ def cases(tier, mods):
             if quick and (name == "frexp@dim" or (name == "frexp" and of not in ("none", "fresh")) or of in ("otherunit", "flip0", "relabel0", "reversed")):
                 continue
             out.append(float_ufunc_case(name, arity, nout, ua, ub, fault, of))
+    # ---- bare ndarray operands next to quantities in scaled pure-number units (inputs, both positions, windows, real buffers)
+    out += _barescale_cases(quick)
     # ---- histories of two and three calls in one path; read-only targets
     out += _history_cases(tier)
     ids = set()
